@@ -401,8 +401,76 @@ var checkBig = ev.Register("graph-structured", func(c *BigCase) ev.Outcome {
 	if err := coreCheck(adj, c.Root, nil, false); err != nil {
 		return ev.Outcome{Err: fmt.Errorf("%s graph with %d nodes: %w", c.Kind, c.N, err)}
 	}
+	if err := bigSubgraphProbe(adj); err != nil {
+		return ev.Outcome{Err: fmt.Errorf("%s graph with %d nodes: %w", c.Kind, c.N, err)}
+	}
 	return ev.OK(c.N >= 64, "structured-"+c.Kind)
 })
+
+// bigSubgraphProbe removes the last node and a few edges with the highest, middle and
+// 65536-ish indices of the node of largest out-degree from a big graph and compares the result
+// of SubgraphRemove with the definition (surviving nodes in ascending order, every surviving
+// edge once, NodeMap/EdgeMap translating back).
+func bigSubgraphProbe(adj [][]int) error {
+	n := len(adj)
+	if n < 3 {
+		return nil
+	}
+	g := graph.IntGraph(adj)
+	hub := 0
+	for u := range adj {
+		if len(adj[u]) > len(adj[hub]) {
+			hub = u
+		}
+	}
+	rmNode := n - 1
+	rmE := map[[2]int]bool{}
+	var redges []graph.Edge
+	d := len(adj[hub])
+	for _, e := range []int{d - 1, d / 2, 65536, 65537, 131072, 0} {
+		if e >= 0 && e < d && !rmE[[2]int{hub, e}] {
+			rmE[[2]int{hub, e}] = true
+			redges = append(redges, graph.Edge{Node: hub, Edge: e})
+		}
+	}
+	if len(adj[1]) > 0 {
+		// an edge that must survive although (1, 0) and (hub, 65536) could share a packed key
+		_ = adj[1][0]
+	}
+	sr := graph.SubgraphRemove(g, []int{rmNode}, redges)
+	if sr.NumNodes() != n-1 {
+		return fmt.Errorf("SubgraphRemove(node %d, %d edges of node %d): %d nodes, want %d", rmNode, len(redges), hub, sr.NumNodes(), n-1)
+	}
+	nm := sr.NodeMap(func(v int) interface{} { return v })
+	em := sr.EdgeMap(func(v, e int) interface{} { return [2]int{v, e} })
+	for i := 0; i < n-1; i++ {
+		if nm(i) != i { // node n-1 removed: the others keep their ids
+			return fmt.Errorf("SubgraphRemove: NodeMap(%d) = %v, want %d", i, nm(i), i)
+		}
+		var want [][2]int // surviving old edges (index, target)
+		for e, to := range adj[i] {
+			if to != rmNode && !rmE[[2]int{i, e}] {
+				want = append(want, [2]int{e, to})
+			}
+		}
+		out := sr.Out(i)
+		if len(out) != len(want) {
+			return fmt.Errorf("SubgraphRemove: node %d keeps %d out-edges, want %d (removed: node %d and edges %v)", i, len(out), len(want), rmNode, redges)
+		}
+		if len(out) > 64 && i != hub {
+			continue
+		}
+		seen := map[int]bool{}
+		for e, to := range out {
+			oe := em(i, e).([2]int)
+			if oe[0] != i || oe[1] < 0 || oe[1] >= len(adj[i]) || adj[i][oe[1]] != to || to == rmNode || rmE[oe] || seen[oe[1]] {
+				return fmt.Errorf("SubgraphRemove: new edge %d of node %d (to %d) maps to original edge %v", e, i, to, oe)
+			}
+			seen[oe[1]] = true
+		}
+	}
+	return nil
+}
 
 // ---------------------------------------------------------------- NodeMarks histories
 
@@ -1181,10 +1249,24 @@ func TestRandomGraphs(t *testing.T) {
 	})
 }
 
+// TestWideNodes: out-degrees beyond 2^16 and 2^17 (edge indices that no longer fit 16 bits).
+func TestWideNodes(t *testing.T) {
+	if ev.Replaying() {
+		return
+	}
+	ev.Rule(rule)
+	sizes := []int{65538, 70002, 131075}
+	ev.Parallel(t, len(sizes), func(tb ev.TB, i int) {
+		if ev.MyShare(i) {
+			checkBig.RunEnum(tb, &BigCase{Kind: "broom", N: sizes[i], Param: 2})
+		}
+	})
+}
+
 func TestStructured(t *testing.T) {
 	ev.Rule(rule)
 	ev.Rapid(t, "c18-structured", 40, 640, func(rt *rapid.T) {
-		c := &BigCase{Kind: rapid.SampledFrom([]string{"selfloops-path", "lcg-random", "doubled-path", "two-cycles-chain", "fan", "path", "cycle", "tree", "layers", "backedges", "reversed-path"}).Draw(rt, "kind")}
+		c := &BigCase{Kind: rapid.SampledFrom([]string{"broom", "selfloops-path", "lcg-random", "doubled-path", "two-cycles-chain", "fan", "path", "cycle", "tree", "layers", "backedges", "reversed-path"}).Draw(rt, "kind")}
 		switch rapid.IntRange(0, 4).Draw(rt, "size") {
 		case 4: // around the 64-component mark and other word sizes
 			c.N = rapid.SampledFrom([]int{63, 64, 65, 66, 67, 100, 127, 128, 129, 130, 200, 255, 256, 257}).Draw(rt, "wordsize")
